@@ -229,6 +229,55 @@ def work_chains(unit):
     return dict(hist), bad
 
 
+# ------------------------------------------------------------------------------------------------ (3) wrapper graphs (InlineGraph)
+def _apply(f, *args):
+    return f(*args)
+
+
+def work_wrappers(_):
+    """unnamed inner graphs that wrap one call, in every relation between the graph's parameters and the call's arguments (exact, prefix, extra constant,
+    ignored parameter, swapped, keyword): only the exact wrapper may be replaced by the function it wraps"""
+    import einx
+    import einx._src.tracer as tracer
+    from einx._src.tracer.signature import python as P
+    from einx._src.frontend.impl import numpy as impl
+    opts = impl._get_backend_kwargs()["optimizations"]
+    hist = collections.Counter(); bad = []
+    x = (np.arange(6, dtype="int64") * 3 + 1).reshape(2, 3); y = (np.arange(6, dtype="int64") + 50).reshape(2, 3)
+    npv = P.import_("numpy", as_="np")
+    fns = {"flip": npv.flip, "negative": npv.negative, "subtract": npv.subtract, "transpose": npv.transpose, "roll": npv.roll}
+    shapes = {"exact1": (1, lambda p: [p[0]], {}), "extra-const": (1, lambda p: [p[0], 0], {}), "extra-const1": (1, lambda p: [p[0], 1], {}), "ignored-param": (2, lambda p: [p[0]], {}),
+              "exact2": (2, lambda p: [p[0], p[1]], {}), "swapped": (2, lambda p: [p[1], p[0]], {}), "keyword": (1, lambda p: [p[0]], {"axis": 0}), "duplicated": (1, lambda p: [p[0], p[0]], {}),
+              "second-only": (2, lambda p: [p[1]], {})}
+    for fname, f in fns.items():
+        for sname, (nparams, mkargs, kw) in shapes.items():
+            if fname in ("flip", "transpose", "roll", "negative") and sname in ("exact2", "swapped", "duplicated") and fname != "negative": continue
+            if fname == "subtract" and nparams == 1 and sname not in ("duplicated",): continue
+            if fname == "negative" and sname in ("extra-const", "extra-const1", "keyword"): continue
+            if fname == "transpose" and sname in ("extra-const", "extra-const1", "keyword"): continue
+            if fname == "roll" and sname in ("exact1", "ignored-param", "second-only"): continue
+            for nested_in_named in (True,):
+                params = [P.Value(None) for _ in range(nparams)]
+                inner = tracer.Graph(params, P.call(f, mkargs(params), kw))
+                outer_in = [tracer.signature.classical.Tensor(None, shape=(2, 3)) for _ in range(nparams)]
+                out = P.call(P.constant(_apply), [inner] + outer_in)
+                g = tracer.Graph(outer_in, out, name="op")
+                args = [x, y][:nparams]
+                try:
+                    r1, _ = interp.run_graph(g, [a.copy() for a in args])
+                except Exception:
+                    hist["wrapper-skip"] += 1; continue
+                g2 = tracer.optimize(g, optimizations=opts)
+                hist["programs"] += 1
+                msg, skip = compare_graphs(g, g2, args, opts, None)
+                if msg:
+                    hist["DISAGREE"] += 1
+                    bad.append(({"kind": "wrapper", "fn": fname, "shape": sname}, f"inner graph wrapping np.{fname} ({sname}): {msg}", {"wrapper": [fname, sname]}))
+                else: hist["agree"] += 1
+    hist["comparisons"] = COMPARISONS[0]; COMPARISONS[0] = 0
+    return dict(hist), bad
+
+
 CORPUS_QUICK = [(["id"], 3, 1), (["id"], 4, 0), (["sum", "max"], 3, 1), (["add"], 2, 1), (["dot"], 3, 0), (["get_at"], 2, 1), (["add_at"], 2, 1), (["set_at"], 2, 0), (["flip", "argmax", "softmax"], 3, 1),
                 (["roll", "sort", "logsumexp"], 2, 1), (["where"], 1, 1)]
 CORPUS_THOROUGH = [(["id"], 3, 2), (["id"], 4, 1), (["sum", "max", "mean"], 3, 2), (["add", "subtract", "where"], 2, 1), (["dot"], 3, 1), (["get_at"], 3, 1), (["add_at", "set_at", "subtract_at"], 2, 1),
@@ -258,14 +307,17 @@ def run(ctx):
     for h, bad in runner.pmap(work_chains, list(runner.chunks(specs, 200)), chunksize=1):
         hist.update({"chain:" + k: v for k, v in h.items()})
         for sig, what, rp in bad: ctx.violation(sig, what, rp)
+    h, bad = work_wrappers(None)
+    hist.update({"wrapper:" + k: v for k, v in h.items()})
+    for sig, what, rp in bad: ctx.violation(sig, what, rp)
     ctx.counters.update(hist)
     for s in specs[:: max(1, len(specs) // 6)][:6]:
         ctx.sample({"chain": {"input_shape": list(s[0]), "steps": [[st[0]] + [list(v) for v in st[1:]] for st in s[1]]}, "variants": "plain / all intermediates are outputs / first intermediate has a second consumer"})
     for j in items[:: max(1, len(items) // 4)][:4]:
         ctx.sample({"captured_graph_pair_of": f"einx.{j['op']}({j['desc']!r})", "shapes": j["shapes"]})
-    programs = hist.get("corpus:pairs", 0) + hist.get("chain:programs", 0)
+    programs = hist.get("corpus:pairs", 0) + hist.get("chain:programs", 0) + hist.get("wrapper:programs", 0)
     ctx.coverage = {
-        "programs": programs, "disagreements_checked": hist.get("corpus:comparisons", 0) + hist.get("chain:comparisons", 0), "exhaustive": True,
+        "programs": programs, "disagreements_checked": hist.get("corpus:comparisons", 0) + hist.get("chain:comparisons", 0) + hist.get("wrapper:comparisons", 0), "exhaustive": True,
         "corpus_graph_pairs": hist.get("corpus:pairs", 0), "synthetic_chains": hist.get("chain:programs", 0), "chain_specs": len(specs),
         "max_passes_seen": max([int(k.split("=")[1]) for k in hist if "passes=" in k] or [0]),
         "rule": "disagreements_checked = individual before/after comparisons made (outputs, post-state of each tensor input, fixed point). program = (graph before optimisation, graph after) pair; corpus pairs captured from real calls on all three backends; synthetic chains = all transpose pairs "
@@ -278,6 +330,10 @@ def run(ctx):
 
 
 def replay(d):
+    if "wrapper" in d:
+        h, bad = work_wrappers(None); hits = [b for b in bad if b[2]["wrapper"] == d["wrapper"]]
+        for b in hits: print(b[1])
+        return bool(hits)
     if "call" in d:
         h, bad = work_corpus((d.get("seed", 0), [d["call"]]))
         for b in bad: print(b[1])
